@@ -221,19 +221,19 @@ Definition DERIVED_KEYS : list str := [Q_QNAME; Q_VALUE; Q_TYPE].
 Definition find_var (vars : list xvar) (key : str) (j : jvalue) : option xvar :=
   find (fun var =>
           let var_is_list := v_list_element var || v_tokens var in
-          if str_eqb (v_local_name var) key then Bool.eqb (j_is_array j) var_is_list
-          else match v_wrapper var with
-               | Some w =>
-                   str_eqb w key
-                   && match j with
-                      | JDict m => match assoc (v_local_name var) m with
-                                   | Some val => Bool.eqb (j_is_array val) var_is_list
-                                   | None => false
-                                   end
-                      | _ => false
-                      end
-               | None => false
-               end) vars.
+          match v_wrapper var with
+          | None => str_eqb (v_local_name var) key && Bool.eqb (j_is_array j) var_is_list
+          | Some w =>
+              (* a wrapped field is matched through its wrapper key only *)
+              str_eqb w key
+              && match j with
+                 | JDict m => match assoc (v_local_name var) m with
+                              | Some val => Bool.eqb (j_is_array val) var_is_list
+                              | None => false
+                              end
+                 | _ => false
+                 end
+          end) vars.
 
 (* converter.serialize(value) of a JSON value (no format) *)
 Fixpoint j_serialize (c : conv) (j : jvalue) {struct j} : gres (option str) :=
@@ -418,7 +418,7 @@ Fixpoint drun (g : generics) (c : conv) (u : universe) (strict : bool) (fuel : n
                     params <- bind_params rec meta vars m [] ;;
                     construct g cl meta params
                 end
-          | _ => Err EAttribute                               (* data.keys() *)
+          | _ => Err EParser                                  (* not an object *)
           end
       (* ---- bind_value(meta, var, value, recursive) *)
       | DBindValue meta var j recursive =>
@@ -427,8 +427,7 @@ Fixpoint drun (g : generics) (c : conv) (u : universe) (strict : bool) (fuel : n
             | JDict m =>
                 kv <- mapM (fun e => match snd e with JStr s => Ok (fst e, s) | _ => Err EUnmodelled end) m ;;
                 Ok (VMap kv)
-            | JList _ [] => Ok (VMap [])
-            | _ => Err EType
+            | _ => Err EParser                               (* expected object *)
             end
           else if negb recursive && v_list_element var && (match j with JList false _ => true | _ => false end) then
             match j, v_factory var with
@@ -456,6 +455,10 @@ Fixpoint drun (g : generics) (c : conv) (u : universe) (strict : bool) (fuel : n
             | JDict _ => Err EUnmodelled
             | _ => Ok (jv_to_value j)
             end
+          else if (match j with
+                   | JList _ l => existsb (fun x => match x with JNull => true | _ => false end) l
+                   | _ => false
+                   end) then Err EParser                       (* null inside a tokens list *)
           else
             s <- j_serialize c j ;;
             parse_var c strict var s
@@ -467,7 +470,7 @@ Fixpoint drun (g : generics) (c : conv) (u : universe) (strict : bool) (fuel : n
           else if v_any_type var || v_is KWildcard var then rec (DBindBest data (meta_element_types meta))
           else
             match v_clazz var with
-            | None => Err EUnmodelled                           (* assert var.clazz is not None *)
+            | None => Err EParser                               (* an object where a primitive is expected *)
             | Some cl =>
                 match subclasses_of u cl with
                 | [] => rec (DBindDataclass data cl)
